@@ -1,6 +1,7 @@
 package fw
 
 import (
+	"sync/atomic"
 	"bytes"
 	"os"
 	"os/exec"
@@ -31,6 +32,22 @@ func HaveLLVM() bool {
 // false if LLVM rejects the text (stderr holds the message). A "warning: ignoring" (LLVM stripped
 // invalid debug info instead of failing) is reported through warned.
 func AsDis(text string) (out string, stderr string, ok bool, warned bool) {
+	out, stderr, ok, warned = asDis(text)
+	if !ok && IsToolCrash(stderr) {
+		atomic.AddInt64(&ToolCrashes, 1)
+	}
+	return
+}
+
+// ToolCrashes counts LLVM tool crashes (a defect of the oracle, never of the library).
+var ToolCrashes int64
+
+// IsToolCrash reports whether stderr shows that the LLVM tool itself crashed.
+func IsToolCrash(stderr string) bool {
+	return strings.Contains(stderr, "PLEASE submit a bug report") || strings.Contains(stderr, "Stack dump:")
+}
+
+func asDis(text string) (out string, stderr string, ok bool, warned bool) {
 	as := exec.Command("llvm-as-14", "-o", "-", "-")
 	as.Stdin = strings.NewReader(text)
 	var bc, e1 bytes.Buffer
